@@ -1,4 +1,6 @@
 import Martian.Props.C02.Facts
+import Martian.Props.C02.SemFacts
+import Martian.Props.C02.ErrorValues
 import Martian.Lemmas.Proxy
 import Martian.Lemmas.ProxyTrace
 import Martian.Lemmas.ProxyState
